@@ -6,12 +6,17 @@
 //!   set P j <ref> | trunc P n | push P <ref>     edit proof P             -> `len <n>`
 //!   check d i <ref> P          check_proof(data d, i, root=<ref>, P)      -> `true|false`
 //!   last  d i <ref> P          check_proof_last(...)                      -> `true|false`
+//!   drop P k                   remove the first k elements of proof P    -> `len <n>`
+//! leaf data ids >= 1_000_000 are 32-byte blobs interned by the harness (random digests / the bytes of an inner node
+//! of a tree: to the model they are just further leaf ids, distinct from every node - collision freedom).
 //! refs:  `R T` root of tree T, `Q T i l` element l of T.create_proof(i), `Z k` junk bytes.
 use ag_harness::*;
 use alpenglow::crypto::Hash;
-use alpenglow::crypto::merkle::PlainMerkleTree;
+use alpenglow::crypto::merkle::{DoubleMerkleProof, DoubleMerkleRoot, DoubleMerkleTree, PlainMerkleTree, SliceRoot};
 
-fn data(id: u64) -> Vec<u8> {
+const BLOB_BASE: u64 = 1_000_000;
+
+fn plain_data(id: u64) -> Vec<u8> {
     if id == 0 { Vec::new() } else { format!("leaf-{id}-{}", "x".repeat((id % 7) as usize)).into_bytes() }
 }
 
@@ -26,6 +31,8 @@ struct Ctx {
     /// oracle-only section: operations are not written to the compared stream (the model's term representation of
     /// `EMPTY_ROOTS[31]` has 2^32 nodes; comparing such terms in the driver takes minutes)
     mute: bool,
+    /// interned 32-byte leaf data (ids `BLOB_BASE + k`, k in order of first use within the case)
+    blobs: Vec<Vec<u8>>,
 }
 
 /// the `EMPTY_ROOTS` table of `src/crypto/merkle.rs` (private constants), parsed from the working tree
@@ -61,6 +68,41 @@ enum Ref {
 }
 
 impl Ctx {
+    fn data(&self, id: u64) -> Vec<u8> {
+        if id >= BLOB_BASE { self.blobs[(id - BLOB_BASE) as usize].clone() } else { plain_data(id) }
+    }
+    /// leaf data id of the given 32 bytes (injective: equal bytes get the same id)
+    fn blob(&mut self, bytes: &[u8]) -> u64 {
+        assert_eq!(bytes.len(), 32);
+        match self.blobs.iter().position(|b| b == bytes) {
+            Some(k) => BLOB_BASE + k as u64,
+            None => { self.blobs.push(bytes.to_vec()); BLOB_BASE + self.blobs.len() as u64 - 1 }
+        }
+    }
+    fn reset(&mut self) {
+        self.trees.clear();
+        self.proofs.clear();
+        self.blobs.clear();
+        self.class = 0;
+    }
+    /// value of the inner node `k` levels above leaf `i` of tree `t` (k = height: the root), as leaf data
+    fn inner_node_blob(&mut self, t: usize, i: usize, k: usize) -> u64 {
+        let d = self.data(self.trees[t].1[i]);
+        let prefix: Vec<Hash> = self.trees[t].0.create_proof(i)[..k].to_vec();
+        let node = PlainMerkleTree::derive_root(&d, i, &prefix);
+        let bytes: &[u8] = node.as_ref();
+        let bytes = bytes.to_vec();
+        self.blob(&bytes)
+    }
+    /// the claim "the inner node k levels above leaf i is the (i >> k)-th leaf", with the top part of the proof of leaf i:
+    /// must not verify, neither as a member nor as the last leaf (the tree would be reported 2^k times smaller)
+    fn inner_node_claims(&mut self, t: usize, i: usize, k: usize, rng: &mut Rng) {
+        let b = self.inner_node_blob(t, i, k);
+        let p = self.proof(t, i);
+        self.drop_first(p, k);
+        self.check(false, b, (i >> k) as u64, &Ref::R(t), p, Some(false), "inner-node-as-leaf-rejected", rng);
+        self.check(true, b, (i >> k) as u64, &Ref::R(t), p, Some(false), "inner-node-as-leaf-rejected", rng);
+    }
     fn step(&mut self, op: &str, out: &str) {
         if !self.mute { self.rec.step(op, out); }
     }
@@ -78,11 +120,11 @@ impl Ctx {
             Ref::Q(t, i, l) => (format!("Q {t} {i} {l}"), self.trees[*t].0.create_proof(*i)[*l].clone()),
             Ref::Z(k) => (format!("Z {k}"), self.junk(*k, rng)),
             Ref::E(k) => (format!("E {k}"), self.empty[*k].clone()),
-            Ref::D(d, i, p) => (format!("D {d} {i} {p}"), PlainMerkleTree::derive_root(&data(*d), *i as usize, &self.proofs[*p].clone().into())),
+            Ref::D(d, i, p) => (format!("D {d} {i} {p}"), PlainMerkleTree::derive_root(&self.data(*d), *i as usize, &self.proofs[*p].clone().into())),
         }
     }
     fn tree(&mut self, leaves: Vec<u64>) -> usize {
-        let datas: Vec<Vec<u8>> = leaves.iter().map(|d| data(*d)).collect();
+        let datas: Vec<Vec<u8>> = leaves.iter().map(|d| self.data(*d)).collect();
         let t = PlainMerkleTree::new(&datas);
         let id = self.trees.len();
         let ids = leaves.iter().map(|d| d.to_string()).collect::<Vec<_>>().join(" ");
@@ -114,6 +156,12 @@ impl Ctx {
         let n = self.proofs[p].len();
         self.step(&format!("trunc {p} {n}"), &format!("len {n}"));
     }
+    fn drop_first(&mut self, p: usize, k: usize) {
+        let k = k.min(self.proofs[p].len());
+        self.proofs[p].drain(..k);
+        let n = self.proofs[p].len();
+        self.step(&format!("drop {p} {k}"), &format!("len {n}"));
+    }
     fn copy(&mut self, p: usize) -> usize {
         let id = self.proofs.len();
         let q = self.proofs[p].clone();
@@ -124,7 +172,7 @@ impl Ctx {
     /// runs check (last = false) or check_last; `expect`: what the *property* demands, if known.
     fn check(&mut self, last: bool, d: u64, i: u64, root: &Ref, p: usize, expect: Option<bool>, why: &str, rng: &mut Rng) -> bool {
         let (s, r) = self.resolve(root, rng);
-        let dat = data(d);
+        let dat = self.data(d);
         let proof = self.proofs[p].clone();
         let res = catch(|| {
             if last {
@@ -141,6 +189,18 @@ impl Ctx {
         self.step(&op, &out);
         self.class = fnv(self.class, &format!("{}{}{}", last, why, out));
         let got = res.clone().unwrap_or(false);
+        if dat.len() == 32 {
+            // a 32-byte leaf is what the double-Merkle tree has (slice roots): the same claim through its types
+            let leaf: SliceRoot = wincode::deserialize::<Hash>(&dat).expect("32 bytes are a Hash").into();
+            let (dr, dp): (DoubleMerkleRoot, DoubleMerkleProof) = (r.clone().into(), proof.clone().into());
+            let res2 = catch(|| if last { DoubleMerkleTree::check_proof_last(&leaf, i as usize, &dr, &dp) } else { DoubleMerkleTree::check_proof(&leaf, i as usize, &dr, &dp) });
+            self.rec.count("double-merkle-tree-checks");
+            self.rec.oracle(res2.is_ok(), "merkle-check-panics", || format!("{op} (DoubleMerkleTree): panicked"));
+            if let Some(e) = expect {
+                let got2 = res2.unwrap_or(false);
+                self.rec.oracle(got2 == e, &format!("merkle-{}-{}", if last { "last" } else { "check" }, why), || format!("{op} through DoubleMerkleTree (leaf = the 32 bytes as a SliceRoot): got {got2}, property demands {e} ({why})"));
+            }
+        }
         self.rec.count(&format!("verdict:{}:{}", if last { "last" } else { "check" }, out));
         self.rec.oracle(res.is_ok(), "merkle-check-panics", || format!("{op}: panicked"));
         if let Some(e) = expect {
@@ -165,7 +225,7 @@ fn main() {
     let args = Args::parse();
     quiet_panics();
     let mut rng = Rng::new(args.seed);
-    let mut cx = Ctx { rec: Recorder::new(), trees: vec![], proofs: vec![], junk: vec![], empty: empty_roots(), class: 0, mute: false };
+    let mut cx = Ctx { rec: Recorder::new(), trees: vec![], proofs: vec![], junk: vec![], empty: empty_roots(), class: 0, mute: false, blobs: vec![] };
 
     let sizes: Vec<usize> = if args.thorough {
         let mut v: Vec<usize> = (1..=1024).collect();
@@ -185,9 +245,7 @@ fn main() {
 
     for &n in &sizes {
         // ---- case A: all honest proofs of one tree verify; last-variant exactly for the last leaf
-        cx.trees.clear();
-        cx.proofs.clear();
-        cx.class = 0;
+        cx.reset();
         cx.rec.begin_case("honest");
         let t = cx.tree(leaves(n, 100, &[]));
         let h = cx.trees[t].0.height();
@@ -201,9 +259,7 @@ fn main() {
         cx.rec.end_case(cx.class ^ (h as u64) << 32 ^ n as u64, true);
 
         // ---- case B: claimed indices: other positions, beyond the width, aliases i + k*2^h
-        cx.trees.clear();
-        cx.proofs.clear();
-        cx.class = 0;
+        cx.reset();
         cx.rec.begin_case("claimed-index");
         let t = cx.tree(leaves(n, 1000, &[]));
         let reps = if args.thorough { 6 } else { 3 };
@@ -229,9 +285,7 @@ fn main() {
         cx.rec.end_case(cx.class ^ n as u64, true);
 
         // ---- case C: corruptions of a valid proof: element, length, leaf, root
-        cx.trees.clear();
-        cx.proofs.clear();
-        cx.class = 0;
+        cx.reset();
         cx.rec.begin_case("corruption");
         let t = cx.tree(leaves(n, 5000, &[]));
         let t2 = cx.tree(leaves(n.max(2) + rng.below(5) as usize, 9000, &[]));
@@ -283,14 +337,25 @@ fn main() {
                 cx.check(false, d, i as u64, &Ref::R(t), p, Some(false), "wrong-length-rejected", &mut rng);
                 cx.check(true, d, i as u64, &Ref::R(t), p, Some(false), "wrong-length-rejected", &mut rng);
             }
+            // shortened from below: the inner node k levels above the leaf offered as the leaf at index i >> k
+            // (leaf / inner-node domain separation; the 32 bytes of the node are the leaf data)
+            let ht = cx.trees[t].0.height();
+            let mut ks = vec![1usize, ht, 1 + rng.below(ht.max(1) as u64) as usize];
+            ks.sort();
+            ks.dedup();
+            for k in ks {
+                if k <= ht {
+                    cx.inner_node_claims(t, i, k, &mut rng);
+                    // for the last leaf too (the last-leaf variant then walks left siblings only when n = 2^h)
+                    if i != n - 1 { cx.inner_node_claims(t, n - 1, k, &mut rng); }
+                }
+            }
         }
         cx.rec.end_case(cx.class ^ n as u64, true);
 
         // ---- case D: trailing empty leaves (the last variant must look through them)
         if n >= 2 {
-            cx.trees.clear();
-            cx.proofs.clear();
-            cx.class = 0;
+            cx.reset();
             cx.rec.begin_case("empty-leaves");
             let k = 1 + rng.below((n as u64 - 1).min(4)) as usize;
             let mut emp: Vec<usize> = (n - k..n).collect();
@@ -307,13 +372,57 @@ fn main() {
             cx.rec.end_case(cx.class ^ n as u64, true);
         }
     }
+    // ---- case F: trees whose leaves are 32-byte digests, as the double-Merkle tree's are (slice roots): honest proofs,
+    // and every "inner node as a leaf" claim: leaf := value of the inner node k levels above leaf i, index := i >> k,
+    // proof := proof[k..] (k = height: the root itself with the empty proof). None may verify; through the last-leaf
+    // variant the tree would be reported as having (n-1 >> k) + 1 leaves. Every 32-byte-leaf verification is run through
+    // PlainMerkleTree (compared with the model) and through DoubleMerkleTree's own types (oracle only).
+    let digest_sizes: Vec<usize> = if args.thorough {
+        let mut v: Vec<usize> = (1..=130).collect();
+        v.extend([255, 256, 257, 511, 512, 1000, 1023, 1024]);
+        v
+    } else {
+        let mut v: Vec<usize> = (1..=18).collect();
+        v.extend([31, 32, 33, 63, 64, 65, 100, 128, 256, 1024]);
+        v.push(rng.range(19, 1023) as usize);
+        v
+    };
+    for &n in &digest_sizes {
+        cx.reset();
+        cx.rec.begin_case("digest-leaves");
+        let mut lv = vec![];
+        for _ in 0..n {
+            let b = rng.bytes(32);
+            lv.push(cx.blob(&b));
+        }
+        let t = cx.tree(lv.clone());
+        let h = cx.trees[t].0.height();
+        let mut idxs: Vec<usize> = if n <= 9 || (args.thorough && n <= 40) { (0..n).collect() } else { let mut v: Vec<usize> = (0..3).map(|_| rng.below(n as u64) as usize).collect(); v.extend([0, n - 1, n / 2, n.next_power_of_two() / 2 - 1]); v };
+        idxs.sort();
+        idxs.dedup();
+        for &i in &idxs {
+            let p = cx.proof(t, i);
+            cx.check(false, lv[i], i as u64, &Ref::R(t), p, Some(true), "created-proof-verifies", &mut rng);
+            cx.check(true, lv[i], i as u64, &Ref::R(t), p, Some(i == n - 1), "last-iff-no-leaf-to-the-right", &mut rng);
+            for k in 1..=h {
+                cx.inner_node_claims(t, i, k, &mut rng);
+            }
+        }
+        // a digest leaf of this tree under the wrong index / another digest under the right one
+        if n >= 2 {
+            let i = rng.below(n as u64) as usize;
+            let p = cx.proof(t, i);
+            let j = (i + 1 + rng.below(n as u64 - 1) as usize) % n;
+            cx.check(false, lv[j], i as u64, &Ref::R(t), p, Some(false), "wrong-leaf-rejected", &mut rng);
+            cx.check(false, lv[i], j as u64, &Ref::R(t), p, Some(false), "wrong-index-rejected", &mut rng);
+        }
+        cx.rec.end_case(cx.class ^ n as u64 ^ 0xd16e << 40, true);
+    }
     // ---- case E: a proof of the maximal height. The last leaf of a small tree, its proof continued with empty right
     // siblings up to 32 entries, is a valid (last-leaf) proof under the root it derives; one entry more must be refused
     // even though the first 32 entries are a valid proof
     for n in [1usize, 2, 3, 5, 8, 13] {
-        cx.trees.clear();
-        cx.proofs.clear();
-        cx.class = 0;
+        cx.reset();
         cx.rec.begin_case("maximal-height");
         cx.step(&format!("tree 0 {}", n), &format!("h 0")); // placeholder line so that the case is not empty in the stream
         cx.mute = true;
